@@ -57,21 +57,14 @@ def one(acc, s1, s2, sch1, sch2, routine, boost=(), native=False):
 
 
 def t_pairs(acc, n1, n2, k, depth, shard, nshard, stride=1, offset=0, sch2='r'):
-    size1 = spaces.dfa_size(n1, k)
     size2 = spaces.dfa_size(n2, k)
+    total = spaces.dfa_size(n1, k) * size2
     cnt = 0
-    for i in range(size1):
-        s1 = None
-        for j in range(size2):
-            idx = i * size2 + j
-            if idx % stride != offset % stride:
-                continue
-            cnt += 1
-            if cnt % nshard != shard:
-                continue
-            if s1 is None:
-                s1 = spaces.dfa_spec(n1, k, i)
-            check_pair(acc, s1, spaces.dfa_spec(n2, k, j), depth, 's', sch2)
+    for idx in range(offset % stride, total, stride):
+        cnt += 1
+        if cnt % nshard != shard:
+            continue
+        check_pair(acc, spaces.dfa_spec(n1, k, idx // size2), spaces.dfa_spec(n2, k, idx % size2), depth, 's', sch2)
 
 
 def plan(tier, seed):
@@ -95,11 +88,11 @@ def plan(tier, seed):
     if tier == 'quick':
         for (a, b) in ((3, 1), (1, 3), (3, 2), (2, 3)):
             pairs(a, b, 1, 1, 2)
-        pairs(3, 3, 1, 1, 16, stride=8)
+        pairs(3, 3, 1, 1, 16, stride=16)
         pairs(3, 2, 2, 0, 8, stride=64)
         pairs(2, 3, 2, 0, 8, stride=64)
         pairs(3, 3, 2, 0, 16, stride=16384)
-        bounds = 'ordered pairs DFA(n<=2,k<=2)^2 all (d<=2; (2,2,k=2) d<=1); DFA(3,1)x DFA(n<=2,1) both orders d<=1; DFA(3,1)^2 stride 1/8 d<=1; DFA(3,2)xDFA(2,2) stride 1/64, DFA(3,2)^2 stride 1/16384 (d=0)'
+        bounds = 'ordered pairs DFA(n<=2,k<=2)^2 all (d<=2; (2,2,k=2) d<=1); DFA(3,1)x DFA(n<=2,1) both orders d<=1; DFA(3,1)^2 stride 1/16 d<=1; DFA(3,2)xDFA(2,2) stride 1/64, DFA(3,2)^2 stride 1/16384 (d=0)'
     else:
         for (a, b) in ((3, 1), (1, 3), (3, 2), (2, 3)):
             pairs(a, b, 1, 2, 4)
